@@ -533,7 +533,11 @@ func build(e *env) (post func() string) {
 		return nil
 	case "emit":
 		var f pipe.F[int, int] = liftF(e, sc.emitf)
-		out, exx := pipe.Emit(ctx, sc.Caps0(), time.Duration(max(sc.Freq, 1))*sc.unit(), f)
+		freq := time.Duration(max(sc.Freq, 1)) * sc.unit()
+		if sc.Freq < 0 {
+			freq = time.Duration(sc.Freq+1) * sc.unit() // -1: no pause at all, -2: a negative duration (both are "do not wait" for time.Sleep)
+		}
+		out, exx := pipe.Emit(ctx, sc.Caps0(), freq, f)
 		vals, errs := []int{}, []int{}
 		finite := false
 		for i := 0; i < 400; i++ {
@@ -597,7 +601,7 @@ func run(sc *Scenario, diag bool) (res Result) {
 	var twinPost func() string
 	if sc.Twin && !sc.timed() && len(sc.In) > 0 {
 		t2 := *sc
-		t2.Script, t2.PreCancel, t2.Gated, t2.Prefill, t2.NoFinish, t2.Twin = nil, false, false, 0, false, false
+		t2.Script, t2.PreCancel, t2.Gated, t2.Prefill, t2.NoFinish, t2.Twin, t2.PrefillAll = nil, false, false, 0, false, false, false
 		t2.In = nil
 		for i, in := range sc.In {
 			shifted := make([]int, len(in))
@@ -890,6 +894,20 @@ func (e *env) openPhaseCheck() string {
 
 // prefill puts the first elements of input 0 into its buffer before the stage is created.
 func (e *env) prefill() {
+	if e.sc.PrefillAll {
+		// every input holds as much of its elements as its buffer takes before the stage is created
+		for i := range e.in {
+			n := min(cap(e.in[i]), len(e.sc.In[i]))
+			if e.sc.Stage == "join" && e.sc.N > 0 && len(e.in) >= 2 && i == len(e.in)-1 {
+				n = 0 // aliased scenario: the last declared channel is never handed to Join
+			}
+			for k := 0; k < n; k++ {
+				e.in[i] <- e.sc.In[i][k]
+			}
+			e.next[i], e.accepted[i] = n, n
+		}
+		return
+	}
 	n := min(e.sc.Prefill, cap(e.in[0]), len(e.sc.In[0]))
 	for k := 0; k < n; k++ {
 		e.in[0] <- e.sc.In[0][k]
